@@ -110,6 +110,27 @@ DEMO[C18e]="F:seed_c18e_demo_test.go=pkg/suggestion/v1beta1/goptuna|./pkg/sugges
 DEMO[C19e]="F:zero_time_demo_test.go=pkg/db/v1beta1/mysql|./pkg/db/v1beta1/mysql/|-run TestDemoZeroTimeEntriesAreStored"
 DEMO[C20e]="F:authzn_sequence_test.go=pkg/ui/v1beta1|./pkg/ui/v1beta1/|-run TestC20e"
 
+DEMO[C01f]="F:namesake_budget_test.go=pkg/controller.v1beta1/experiment/c01fdemo|./pkg/controller.v1beta1/experiment/c01fdemo/|"
+DEMO[C02f]="F:generator_c02f_demo_test.go=pkg/controller.v1beta1/experiment/manifest|./pkg/controller.v1beta1/experiment/manifest/|-run TestC02fDemo"
+DEMO[C03f]="F:status_util_earlystopped_demo_test.go=pkg/controller.v1beta1/experiment/util|./pkg/controller.v1beta1/experiment/util/|-run TestEarlyStoppedTrialCountsAsFinished"
+DEMO[C04f]="F:c04f_demo_test.go=pkg/controller.v1beta1/trial/c04fdemo|./pkg/controller.v1beta1/trial/c04fdemo/|"
+DEMO[C05f]="F:status_util_c05f_demo_test.go=pkg/controller.v1beta1/experiment/util|./pkg/controller.v1beta1/experiment/util/|-run TestC05f"
+DEMO[C06f]="TREE|./pkg/controller.v1beta1/trial/c06fdemo/|"
+DEMO[C07f]="F:c07f_demo_test.go=pkg/controller.v1beta1/trial|pkg/controller.v1beta1/trial/trial_controller.go pkg/controller.v1beta1/trial/trial_controller_status.go pkg/controller.v1beta1/trial/trial_controller_util.go pkg/controller.v1beta1/trial/c07f_demo_test.go|-run TestC07fObservationLogsRemovedBeforeFinalizerReleased"
+DEMO[C08f]="F:c08f_demo_test.go=pkg/controller.v1beta1/suggestion/suggestionclient,c08f_controller_demo_test.go=pkg/controller.v1beta1/suggestion/c08fdemo|./pkg/controller.v1beta1/suggestion/suggestionclient/ ./pkg/controller.v1beta1/suggestion/c08fdemo/|-run C08f"
+DEMO[C09f]="F:c09f_demo_test.go=pkg/controller.v1beta1/suggestion/suggestionclient|./pkg/controller.v1beta1/suggestion/suggestionclient/|-run TestC09fRequestNumbers"
+DEMO[C10f]="F:metric_strategy_demo_test.go=pkg/controller.v1beta1/suggestion/suggestionclient|./pkg/controller.v1beta1/suggestion/suggestionclient/|-run TestDemoMetricStrategyIndependentExtremes"
+DEMO[C11f]="F:c11f_interleaving_demo_test.go=pkg/controller.v1beta1/trial/c11fdemo|./pkg/controller.v1beta1/trial/c11fdemo/|"
+DEMO[C12f]="F:share_process_namespace_demo_test.go=pkg/webhook/v1beta1/pod|./pkg/webhook/v1beta1/pod/|-run TestDemoPrimaryPodAlwaysSharesProcessNamespace"
+DEMO[C13f]="F:c13f_demo_test.go=pkg/metricscollector/v1beta1/file-metricscollector|./pkg/metricscollector/v1beta1/file-metricscollector/|-run TestC13fDemo"
+DEMO[C14f]="F:restart_admission_soundness_test.go=pkg/webhook/v1beta1/experiment/validator|./pkg/webhook/v1beta1/experiment/validator/|-run TestRestartAdmissionSoundness"
+DEMO[C15f]="F:stale_old_experiment_demo_test.go=pkg/webhook/v1beta1/experiment|./pkg/webhook/v1beta1/experiment/|-run TestDemo"
+DEMO[C16f]="F:resume_policy_demo_test.go=pkg/controller.v1beta1/experiment/c16fdemo|./pkg/controller.v1beta1/experiment/c16fdemo/|"
+DEMO[C17f]="F:rbac_fault_demo_test.go=pkg/controller.v1beta1/suggestion/seeddemo|./pkg/controller.v1beta1/suggestion/seeddemo/|"
+DEMO[C18f]="F:logdist_demo_test.go=pkg/suggestion/v1beta1/goptuna|./pkg/suggestion/v1beta1/goptuna/|-run TestDemoC18f"
+DEMO[C19f]="F:c19f_demo_test.go=pkg/db/v1beta1/mysql|./pkg/db/v1beta1/mysql/|-run TestC19f"
+DEMO[C20f]="F:c20f_demo_test.go=pkg/ui/v1beta1|./pkg/ui/v1beta1/|-run TestC20f"
+
 suite() { # per-test pass/fail set, timing removed
   go test -json -vet=off -count=1 -timeout 25m ./... 2>/dev/null | python3 -c '
 import sys, json
